@@ -76,6 +76,15 @@ def explore(acc, ops, chk, depth, scratch, first_filter=None, kind_name="seq"):
     os.unlink(path)
     cut = next(i for i, r in enumerate(lines) if "marker" in r)
     fails_alone = {r["seq"][0] for r in lines[:cut] if r.get("viol")}
+    # an operation that is already wrong on a fresh process image is an ordinary single-case violation (the alphabet may
+    # contain inputs that no other job of the property offers): reported once, by the shard that owns the operation
+    for r in lines[:cut]:
+        if "error" in r:
+            raise RuntimeError(f"sequence explorer: harness error in single operation {r['seq']}: {r['error']}")
+        i = r["seq"][0]
+        if r.get("viol") and (first_filter is None or first_filter(i)) and not ops[i][0].startswith("env-"):
+            for key, desc in r["viol"]:
+                acc.violation(ops[i][0], ops[i][1], key, desc)
     recs = lines[cut + 1:]
     for r in recs:
         acc.evaluations += 1
